@@ -41,7 +41,7 @@ TokenLen == 11   \* bytes of one body token "[e1:1:0000]"
 PreConn   == {"reset_pre"}                       \* connection-level failure, nothing delivered
 PreOther  == {"close_pre", "garbage"}            \* nothing delivered, not classed as connection error
 Post      == {"hdr_then_reset", "reset_after", "close_after"}   \* response started, then the backend died
-Answered  == {"ok", "http", "http_big", "http_alt"}   \* complete response (any status)
+Answered  == {"ok", "http", "http_big", "http_alt", "http_text", "http_empty"}   \* complete response (any status)
 Abandoned == {"cabort"}                          \* a slow, healthy answer the CLIENT walks away from after its first token
 Routable(s) == s \in {"healthy", "busy", "warming"}
 
